@@ -365,8 +365,12 @@ def entry_point_arguments(chk, repo, rule, where='TidalPy/RadialSolver/solver.py
     scal = {'frequency': X.atom('frequency', 'pos'), 'planet_bulk_density': X.atom('rho_bulk', 'pos'), 'degree_l': X.atom('l', 'pos'), 'integration_rtol': X.atom('rtol', 'pos'),
             'integration_atol': X.atom('atol', 'pos'), 'max_num_steps': X.atom('max_num_steps', 'pos'), 'expected_size': X.atom('expected_size', 'pos'), 'max_ram_MB': X.atom('max_ram', 'pos'),
             'max_step': X.atom('max_step', 'pos')}
-    flags = {'use_kamata': True, 'scale_rtols_by_layer_type': True, 'limit_solution_to_radius': False, 'nondimensionalize': False, 'verbose': False, 'raise_on_fail': True}
-    for layer_types, statics, incomps, method, code in ((('solid', 'liquid', 'Solid'), (False, True, True), (True, False, False), 'DOP853', 2), (('liquid', 'solid'), (True, False), (False, True), 'rk23', 0)):
+    flag_names = ['use_kamata', 'scale_rtols_by_layer_type', 'limit_solution_to_radius', 'nondimensionalize', 'verbose', 'raise_on_fail']
+    # boolean options: three runs whose truth patterns are the bits of the option's index, so that any two options differ in at least one run (a swap of two options is seen)
+    for run_i, (layer_types, statics, incomps, method, code) in enumerate(((('solid', 'liquid', 'Solid'), (False, True, True), (True, False, False), 'DOP853', 2),
+                                                                           (('liquid', 'solid'), (True, False), (False, True), 'rk23', 0),
+                                                                           (('solid',), (False,), (False,), 'RK45', 1))):
+        flags = {nm: bool(((i_ + 1) >> run_i) & 1) for i_, nm in enumerate(flag_names)}
         uppers = tuple(X.atom(f'upper_radius{i}', 'pos') for i in range(len(layer_types)))
         solve_for = ('tidal', 'loading')
         kw = dict(arrs); kw.update(scal); kw.update(flags)
